@@ -254,11 +254,11 @@ def gen_struct(rng, tier, dist, n):
             addr = "/" + "/".join("".join(rng.choice("abcxyz019_#*?") for _ in range(rng.randint(1, 6)))
                                   for _ in range(rng.randint(1, 3)))
             bump("message")
-            kind = "xm" if any(v.startswith("t:") or v.startswith("a:97:") for v in vals) else "pm"
+            kind = "xm" if any(v.startswith("t:") for v in vals) else "pm"
             out.append("%s %d %d %d 1 %s %s" % (kind, ll, prec, compress, ";".join(vals), addr.encode().hex()))
         else:
             # time tags (other than in the Spec oracle) are not in the Coq model
-            kind = "xp" if any(v.startswith("t:") or v.startswith("a:97:") for v in vals) else "pp"
+            kind = "xp" if any(v.startswith("t:") for v in vals) else "pp"
             bump("stream:" + kind)
             out.append("%s %d %d %d 1 %s" % (kind, ll, prec, compress, ";".join(vals)))
     return out
